@@ -1,7 +1,7 @@
 (* C07: every observed probe reported exactly once.
    Statements only: each theorem restates the full type of a lemma proved in coq/proofs and is closed by
    `exact`; Print Assumptions beneath.  Regenerate with bin/genprops.py after a lemma changes. *)
-From LLTD Require Import BlockFun PropsQuery.
+From LLTD Require Import BlockFun PropsQuery BufferLevel.
 
 Theorem C07_record_rule :
   forall (ctx : N) (c : pcfg) (g : gcfg) (mtu : N) (s : ist) (buf : list N) (h : hdr),
@@ -92,3 +92,72 @@ Theorem C07_drain_last_clear :
   snd (f_step ctx c g mtu s' b) = [tx ctx (qresp_frame c h (h_seq h) (see s') false)].
 Proof. exact C07_drain_last. Qed.
 Print Assumptions C07_drain_last_clear.
+
+Theorem C07_on_the_buffer_level_model :
+  forall (junk ctx : N) (c : pcfg) (g : gcfg) (mtu : N) (r : registry) (buf : list N)
+  (w : world) (bl : nat) (bb : N) (h : hdr),
+  c_mtu c = Some mtu ->
+  (576 <= mtu)%N ->
+  (mtu <= 9216)%N ->
+  (mtu <= c_rxsize c)%N ->
+  length buf = o (c_rxsize c) ->
+  BlockSafe.ledger_reg bl bb r w ->
+  parse_hdr buf = Some h ->
+  is_query h = true ->
+  let cap := qcap mtu in
+  let recorded := see (SystemRefinement.reg_state r ctx) in
+  exists (r' : registry) (w' : world),
+  parse_frame no_fail no_fail junk ctx c g r buf w = Ok r' w' /\
+  w_trace w' =
+  tx ctx (qresp_frame c h (h_seq h) (firstn cap recorded) (cap <? length recorded)) :: w_trace w /\
+  see (SystemRefinement.reg_state r' ctx) = skipn cap recorded /\ BlockSafe.ledger_reg bl bb r' w'.
+Proof. exact C07_buffer_level. Qed.
+Print Assumptions C07_on_the_buffer_level_model.
+
+Theorem C07_decoded_buffer_level :
+  forall (junk ctx : N) (c : pcfg) (g : gcfg) (mtu : N) (r : registry) (buf : list N)
+  (w : world) (bl : nat) (bb : N) (h : hdr),
+  c_mtu c = Some mtu ->
+  (576 <= mtu)%N ->
+  (mtu <= 9216)%N ->
+  (mtu <= c_rxsize c)%N ->
+  length buf = o (c_rxsize c) ->
+  BlockSafe.ledger_reg bl bb r w ->
+  parse_hdr buf = Some h ->
+  is_query h = true ->
+  Forall (fun x : N => (x < 256)%N) buf ->
+  types_ok (see (SystemRefinement.reg_state r ctx)) ->
+  exists (r' : registry) (w' : world) (fr : list N),
+  parse_frame no_fail no_fail junk ctx c g r buf w = Ok r' w' /\
+  w_trace w' = tx ctx fr :: w_trace w /\
+  decode_qresp fr =
+  Some
+  (h_seq h, qcap mtu <? length (see (SystemRefinement.reg_state r ctx)),
+  firstn (qcap mtu) (see (SystemRefinement.reg_state r ctx))) /\
+  see (SystemRefinement.reg_state r' ctx) = skipn (qcap mtu) (see (SystemRefinement.reg_state r ctx)) /\
+  BlockSafe.ledger_reg bl bb r' w'.
+Proof. exact C07_buffer_level_decoded. Qed.
+Print Assumptions C07_decoded_buffer_level.
+
+Theorem C07_record_buffer_level :
+  forall (junk ctx : N) (c : pcfg) (g : gcfg) (mtu : N) (r : registry) (buf : list N)
+  (w : world) (bl : nat) (bb : N) (h : hdr),
+  c_mtu c = Some mtu ->
+  (576 <= mtu)%N ->
+  (mtu <= 9216)%N ->
+  (mtu <= c_rxsize c)%N ->
+  length buf = o (c_rxsize c) ->
+  BlockSafe.ledger_reg bl bb r w ->
+  parse_hdr buf = Some h ->
+  is_probe h = true ->
+  let s := SystemRefinement.reg_state r ctx in
+  exists (r' : registry) (w' : world),
+  parse_frame no_fail no_fail junk ctx c g r buf w = Ok r' w' /\
+  w_trace w' = w_trace w /\
+  SystemRefinement.reg_state r' ctx =
+  with_see s
+  (if for_us c h && negb (see_full s) && negb (existsb (obs_key_eqb (obs_of h)) (see s))
+  then obs_of h :: see s
+  else see s) /\ BlockSafe.ledger_reg bl bb r' w'.
+Proof. exact C07_buffer_level_record. Qed.
+Print Assumptions C07_record_buffer_level.
